@@ -96,8 +96,15 @@ class EvalCtx(object):
         else:
             log.warn('Unknown node type %r %r', node_type, node)
 
-    def declarations(self, node, result=[]):
-        # type: (Name | AstName | MultiName | MultiValue | Attribute | ImportedName, list[Name]) -> list[Name]
+    def declarations(self, node, result=[], seen=None):
+        # type: (Name | AstName | MultiName | MultiValue | Attribute | ImportedName, list[Name], set[int] | None) -> list[Name]
+        # `seen`: the chain of re-exports may lead back to where it started
+        # (modules importing a name from each other)
+        if seen is None:
+            seen = set()
+        if id(node) in seen:
+            return result
+        seen.add(id(node))
         node_type = type(node)
         cname = None
         if node_type is AstName:
@@ -136,6 +143,6 @@ class EvalCtx(object):
             result.append(node)  # type: ignore[arg-type]
 
         if cname:
-            return self.declarations(cname, result)
+            return self.declarations(cname, result, seen)
 
         return result
